@@ -232,7 +232,7 @@ func reportBoundary(bc boundaryCase, ep entryPoint, dl delivery, clause string) 
 			ep.name, min.T, kind, hi, hi-1, val, hexs(b), det),
 			map[string]interface{}{"entry": ep.name, "signature": min.T.String(), "go_type": gobridge.GoType(min.T).String(),
 				"entries": hi, "entries_handled": hi - 1, "documented_cap": sizeCap, "value": val,
-				"value_rule": "entry j of the large container: key = nth(keytype, j), value = nth(valuetype, entries-1-j), nth = (j+1)*0x9E3779B1 truncated to the width (strings \"k%04d\", booleans (j/3)&1), first entries kept",
+				"value_rule":   "entry j of the large container: key = nth(keytype, j), value = nth(valuetype, entries-1-j), nth = (j+1)*0x9E3779B1 truncated to the width (strings \"k%04d\", booleans (j/3)&1), first entries kept",
 				"refmodel_hex": hexs(b), "delivery": dl.String(), "clause": mclause, "observed": det,
 				"found_in": fmt.Sprintf("%s with %d entries", bc.d.T, bc.n)},
 			func() bool { c, _ := ep.eval(min, dl); return c == mclause })
